@@ -3,9 +3,10 @@
     difflib opcodes are an arbitrary oracle [ops], so the theorems hold for
     whichever alignment the heuristic chooses); [resolve] is the model of
     deepdiff.extract on key sequences (Path/PathModel.v). *)
-From Coq Require Import List ZArith Bool Arith.
+From Coq Require Import List ZArith Bool Arith Lia.
 Import ListNotations.
-From DD Require Import Base.PyStr Base.Value Path.PathModel Diff.Tree Diff.DiffModel Diff.DiffFaithful.
+From DD Require Import Base.PyStr Base.Value Path.PathModel Diff.Tree Diff.DiffModel Diff.DiffFaithful
+  Diff.DiffPaths Diff.TextView Diff.TextFaithful.
 
 (* [faithful false t1 t2 e]: the path of e resolves in t1 to the reported old value /
    removed item, (through new_path) in t2 to the reported new value / added item,
@@ -38,3 +39,78 @@ Theorem C04_changed_really_differ_refuted :
             ekind e = KValue /\ et1 e = et2 e.
 Proof. exact changed_value_differs_refuted. Qed.
 Print Assumptions C04_changed_really_differ_refuted.
+
+(* ---- the same on the TEXT view: path strings and deepdiff.extract -------------------- *)
+(* [tfaithful strong t1 t2 te] (Diff/TextFaithful.v): the path string of the entry extracts
+   from t1 the reported old value / removed item, (through new_path when given) from t2
+   the reported new value / added item; old_type/new_type are the types of those values
+   and differ; an added dictionary key cannot be extracted from t1 nor a removed one
+   from t2.  [keys_ok]: C09's guard on the dict keys of the inputs. *)
+
+(* only changed values, changed types and moved items can have a t2 path that differs
+   from the t1 path *)
+Theorem C04_only_changes_shift :
+  forall hatom udiff ops skip excl c t1 t2 e,
+    In e (fst (run_diff hatom udiff ops skip excl c t1 t2)) ->
+    ep1 e = ep2 e \/ ekind e = KValue \/ ekind e = KType \/ ekind e = KIterMoved.
+Proof.
+  intros. pose proof (run_diff_same_paths hatom udiff ops skip excl c t1 t2) as S.
+  eapply Forall_forall in S; [exact S|eassumption].
+Qed.
+Print Assumptions C04_only_changes_shift.
+
+(* verbose_level=2: every entry of the result dict *)
+Theorem C04_text_entries_faithful :
+  forall hatom udiff ops skip excl c verbose t1 t2,
+    2 <= verbose -> thr_num c <= thr_den c -> wf t1 = true -> wf t2 = true ->
+    keys_ok t1 = true -> keys_ok t2 = true ->
+    forall te, In te (text_view verbose (fst (run_diff hatom udiff ops skip excl c t1 t2))) ->
+               tfaithful false t1 t2 te.
+Proof. intros. eapply text_faithful; eassumption. Qed.
+Print Assumptions C04_text_entries_faithful.
+
+Theorem C04_text_changed_really_differ_partial :
+  forall hatom udiff ops skip excl c verbose t1 t2,
+    2 <= verbose -> thr_num c <= thr_den c -> wf t1 = true -> wf t2 = true ->
+    keys_ok t1 = true -> keys_ok t2 = true ->
+    forall e, In e (fst (run_diff hatom udiff ops skip excl c t1 t2)) ->
+              In e (fst (diff hatom udiff ops skip excl c t1 t2 [] [])) ->
+    forall te, In te (text_of verbose e) -> tfaithful true t1 t2 te.
+Proof. intros. eapply text_faithful_strong_partial; eassumption. Qed.
+Print Assumptions C04_text_changed_really_differ_partial.
+
+(* verbose_level 0 and 1 (1 is the default): every entry except the changed values /
+   types whose item moved to another index of t2 *)
+Theorem C04_text_default_verbosity_partial :
+  forall hatom udiff ops skip excl c verbose t1 t2,
+    thr_num c <= thr_den c -> wf t1 = true -> wf t2 = true ->
+    keys_ok t1 = true -> keys_ok t2 = true ->
+    forall e, In e (fst (run_diff hatom udiff ops skip excl c t1 t2)) ->
+              (render (ep1 e) = render (ep2 e) \/
+               ~ (ekind e = KValue \/ ekind e = KType \/ ekind e = KIterMoved)) ->
+    forall te, In te (text_of verbose e) -> tfaithful false t1 t2 te.
+Proof.
+  intros hatom udiff ops skip excl c verbose t1 t2 Hthr W1 W2 K1 K2 e He [Hp|Hn].
+  - eapply text_v1_faithful_partial; eassumption.
+  - eapply text_v1_faithful_unshifted; eassumption.
+Qed.
+Print Assumptions C04_text_default_verbosity_partial.
+
+(* the full statement at verbose_level=1 is false: finding K18 (new_path is only given
+   at verbose_level=2); the same run at verbose_level=2 carries new_path *)
+Theorem C04_text_default_verbosity_refuted :
+  (exists te, In te (text_view 1 (fst k18_run)) /\ ~ tfaithful false k18_t1 k18_t2 te) /\
+  (forall te, In te (text_view 2 (fst k18_run)) -> tfaithful false k18_t1 k18_t2 te).
+Proof.
+  split; [exact text_v1_new_path_refuted|].
+  intros te Hte. unfold k18_run in Hte.
+  refine (text_faithful _ _ _ _ _ _ 2 k18_t1 k18_t2 _ _ _ _ _ _ te Hte);
+    try reflexivity; apply Nat.leb_le; reflexivity.
+Qed.
+Print Assumptions C04_text_default_verbosity_refuted.
+
+(* non-vacuity: the hypotheses hold of a pair with a non-empty result in which the difflib pass wins *)
+Example C04_hypotheses_satisfiable :
+  wf k18_t1 = true /\ wf k18_t2 = true /\ keys_ok k18_t1 = true /\ keys_ok k18_t2 = true /\
+  length (text_view 2 (fst k18_run)) = 2 /\ snd k18_run = [[]].
+Proof. vm_compute. repeat split; reflexivity. Qed.
